@@ -327,6 +327,54 @@ func (r *Roles) resolveConnFields(pkg *types.Package) {
 			}
 		}
 	}
+	// tables grouped with their lock into a small struct of their own (callTable{lk, calls}): look one
+	// level down into fields whose type is a struct declared in this package
+	for i := 0; i < st.NumFields(); i++ {
+		ft := st.Field(i).Type()
+		if pt, ok := ft.(*types.Pointer); ok {
+			ft = pt.Elem()
+		}
+		n, ok := ft.(*types.Named)
+		if !ok || n.Obj().Pkg() != pkg {
+			continue
+		}
+		ns, ok := n.Underlying().(*types.Struct)
+		if !ok {
+			continue
+		}
+		for j := 0; j < ns.NumFields(); j++ {
+			f := ns.Field(j)
+			m, ok := f.Type().(*types.Map)
+			if !ok {
+				continue
+			}
+			if en, ok := m.Elem().(*types.Named); ok {
+				if r.TCreq != nil && en == r.TCreq && r.FInflight == nil {
+					r.FInflight = f
+				} else if isNamed(en, "context", "CancelFunc") && r.FHandling == nil {
+					r.FHandling = f
+				}
+			}
+			if pt, ok := m.Elem().(*types.Pointer); ok && r.FChanh == nil {
+				if en, ok := pt.Elem().(*types.Named); ok {
+					if s2 := structOf(en); s2 != nil {
+						var lk, cb *types.Var
+						for k := 0; k < s2.NumFields(); k++ {
+							if isMutex(s2.Field(k).Type()) {
+								lk = s2.Field(k)
+							}
+							if _, ok := s2.Field(k).Type().Underlying().(*types.Signature); ok {
+								cb = s2.Field(k)
+							}
+						}
+						if lk != nil && cb != nil {
+							r.FChanh, r.TChanh, r.FChanhLk, r.FChanhCb = f, en, lk, cb
+						}
+					}
+				}
+			}
+		}
+	}
 	// map elem ordering: F_inflight needs T_creq which may come later in field order: second pass
 	if r.FInflight == nil && r.TCreq != nil {
 		for i := 0; i < st.NumFields(); i++ {
